@@ -722,6 +722,66 @@ func runC06(o *out, thorough bool, r *rng, _ []string) map[string]interface{} {
 		o.run(603, []string{fHex(tid), "1", fHex(wire2)}, true)
 		o.count("xor-values-that-look-ipv4-mapped")
 	}
+	// every address attribute type at once in one message, each with an address of its own, in random order:
+	// each getter returns the value of its own attribute (command 701, decided by the model)
+	for i := 0; i < 60; i++ {
+		tid := r.bytes(12)
+		m := new(stun.Message)
+		copy(m.TransactionID[:], tid)
+		m.Type = stun.NewType(1, 2)
+		m.WriteHeader()
+		types := []int{0x0001, 0x0002, 0x0004, 0x0005, 0x0012, 0x0016, 0x0020, 0x8020, 0x8023, 0x802b, 0x802c}
+		order := r.perm(len(types))
+		for _, k := range order {
+			t := types[k]
+			if i%3 == 2 && r.chance(1, 4) {
+				continue // some absent
+			}
+			ip := r.bytes([]int{4, 16}[r.intn(2)])
+			port := r.intn(65536)
+			var v []byte
+			if t == 0x0012 || t == 0x0016 || t == 0x0020 || t == 0x8020 {
+				v = goXorValue(ip, port, tid)
+			} else {
+				v = append([]byte{0, byte(1 + len(ip)/16), byte(port >> 8), byte(port)}, ip...)
+			}
+			m.Add(stun.AttrType(t), v)
+		}
+		for _, t := range types {
+			g := 2
+			if t == 0x0012 || t == 0x0016 || t == 0x0020 || t == 0x8020 {
+				g = 1
+			}
+			o.run(701, []string{fHex(m.Raw), "-", fNums(g, t), "-"}, true)
+			if t == 0x0001 || t == 0x0020 {
+				o.run(701, []string{fHex(m.Raw), "-", fNums(3-g, t), "-"}, true) // the other getter family on the same type
+			}
+		}
+		o.count("all-address-attributes-in-one-message")
+	}
+	// text values that are themselves quoted / escaped strings: the value is the bytes, quotes and all
+	for i := 0; i < 80; i++ {
+		inner := string(r.bytes(r.intn(12)))
+		switch i % 5 {
+		case 0:
+			inner = "example.org"
+		case 1:
+			inner = `a\nb\x41\u00e9\\`
+		case 2:
+			if len(litStrs) > 0 {
+				inner = string(litStrs[i%len(litStrs)])
+			}
+		}
+		q := []string{`"` + inner + `"`, "'" + inner + "'", "`" + inner + "`", `\"` + inner + `\"`, `"` + inner, "%22" + inner + "%22", "<" + inner + ">"}[i%7]
+		if len(q) > 120 {
+			q = q[:60] + q[len(q)-60:]
+		}
+		for kind := 0; kind < 4; kind++ {
+			o.run(601, []string{fHex(r.bytes(12)), withBytes([]int{4, kind}, []byte(q)), fNums(3, int(textTypes[kind])), "-"}, true)
+		}
+		o.run(601, []string{fHex(r.bytes(12)), withBytes([]int{7, 401}, []byte(q)), fNums(4, 9), "-"}, true)
+		o.count("quoted-text-values")
+	}
 	// what the ERROR-CODE getter hands out belongs to the caller (it is a view into the message): overwriting it
 	// changes nothing about the phrases the library writes for default codes afterwards
 	for _, code := range defaultCodes {
